@@ -106,4 +106,26 @@ theorem div_eq_mul_inv (u v d i m : UnitV K) (hu : u.WF) (hs : P v.scale) (hc : 
     refine ⟨by simp only [UExpr.mul, UExpr.div, UExpr.pow]; grind, fun s => ?_⟩
     simp only [UExpr.mul, UExpr.div, UExpr.pow, expOf_append, expOf_negF, expOf_scaleF]; grind
 
+/-! ### non-vacuity: a concrete pair of equally spelled units with different stored scales -/
+namespace Witness
+
+@[instance_reducible] def idRPow : RPow Rat := ⟨fun x _ => x⟩
+attribute [local instance] idRPow
+
+/-- `code_length` as built before `registry.modify("code_length", 3)` … -/
+def old : UnitV Rat := ⟨UExpr.sym "code_length", 1, 0, Dim.dLength, true⟩
+/-- … and after it: same expression, another stored scale -/
+def new : UnitV Rat := ⟨UExpr.sym "code_length", 3, 0, Dim.dLength, true⟩
+
+/-- the hypotheses of `div_same_spelling` are met by `new / old`, and its scale is 3 — not the 1 a
+    "same expression ⇒ dimensionless unit" shortcut would return -/
+theorem div_same_spelling_witness :
+    new.expr = old.expr ∧ ∃ z, new.div old = .ok z ∧ z.scale = 3 ∧ z.scale ≠ 1 ∧ z.dim = Dim.one := by
+  refine ⟨rfl, _, rfl, ?_, ?_, ?_⟩ <;> decide +kernel
+
+example : ∃ z, new.div old = .ok z ∧ z.scale = new.scale / old.scale ∧ z.dim = new.dim / old.dim :=
+  ⟨_, rfl, (div_same_spelling new old _ rfl rfl).1, (div_same_spelling new old _ rfl rfl).2⟩
+
+end Witness
+
 end Unyt.C05
